@@ -21,6 +21,11 @@ def fact : Nat → Nat
 /-- binomial coefficient `n! / (k! (n-k)!)`, zero for `k > n` -/
 def choose (n k : Nat) : Nat := if k ≤ n then fact n / (fact k * fact (n - k)) else 0
 
+/-- "within practical ranges": `N` = total of the counts handed to a test. Every `Int` intermediate of the translated code (sums of
+counts, `2n - nA`, `2n + 3`, `nB - nAB + 2`, …) is bounded by `2N + 3`, so under this condition the exact model's unbounded `Int` is the
+JVM's 32-bit `Int`. (The Float model that is tested wraps like the JVM; see `Generated.ScalaStats.intArith` for the inventory.) -/
+def int32Safe (N : Nat) : Prop := 2 * N + 3 < 2 ^ 31
+
 /-- sum of `f k` over the integers `lo ≤ k ≤ hi` -/
 def sumRange (lo hi : Int) (f : Int → Rat) : Rat := ((rangeIncl lo hi).map f).sum
 
